@@ -1,15 +1,25 @@
-import ZvbiModel.Cache.LemmasStep
+import ZvbiModel.Cache.LemmasHeld
+import ZvbiModel.Cache.LemmasWitness
 /-!
 # C10 - the Teletext cache is a coherent, bounded, reference-safe page store
 
 Property theorems only; the lemma chain is in `ZvbiModel/Cache/Lemmas*.lean`.
-`Inv` (Cache/Spec.lean) is the bookkeeping part of the property: per-network and per-page counters
-equal the number of stored pages, memory accounting equals the sum of the unreferenced page sizes
-and stays within the limit, every page is on exactly the lists its state requires, no dangling
-network pointer, zombie networks only while referenced.
+
+* `Cache.Inv` (Cache/Spec.lean) is the bookkeeping part of the property: per-network and per-page
+  counters equal the number of stored pages, memory accounting equals the sum of the unreferenced
+  page sizes and stays within the limit, every page is on exactly the lists its state requires,
+  no dangling network pointer, zombie pages / networks exist only while referenced.
+* `State.abs` is the abstract store (Cache/Spec.lean): the retrievable versions, most recently stored
+  or looked-up first; `alookup` / `atouch` / `aput` are the map operations with the documented key
+  rule `putKey`.
+
+Full-strength statements that are FALSE on the current code are kept next to a proved witness
+(`*_counterexample`); statements not proved are listed as `def ... : Prop` at the end.
 -/
 namespace Zvbi.Props.C10
-open Zvbi.Cache
+open Zvbi.Cache Zvbi.Gen.Cache
+
+/-! ## exact bookkeeping through any history -/
 
 /-- A new cache satisfies the invariant. -/
 theorem inv_init : Cache.Inv init := inv_iff_good.2 good_init
@@ -28,5 +38,152 @@ theorem inv_reachable (ops : List Op) : Cache.Inv (run init ops) := by
   | cons op t ih => intro s h; exact ih _ (inv_step s op h)
 
 example : Cache.Inv (run init [.addNet, .put 0 ⟨0x100, 0, 0, 0, 0, 7⟩, .unref 0, .chsw 0]) := inv_reachable _
+
+/-- The per-page counter `n_subpages` is the number of cached versions of the page as long as there are
+    fewer than 256 of them (it is a `uint8_t`). -/
+theorem nsub_exact_partial (ops : List Op) (n : Net) (hn : n ∈ (run init ops).nets) (pg : Nat)
+    (hsmall : (run init ops).pages.countP (fun p => p.net = n.id ∧ p.pgno = pg) < 256) :
+    (n.getStat pg).nSub = (run init ops).pages.countP (fun p => p.net = n.id ∧ p.pgno = pg) := by
+  have := (inv_reachable ops).nSub n hn pg
+  omega
+
+/-- Full strength ("counters equal the number of stored pages") is false: after 256 alternations of a
+    subpage subcode and a clock-time subcode on one BCD page 256 copies are cached and the counter reads 0.
+    Replayed on the C code: corpus/C10/F17_dup_subcode_nsub_wrap.ops. -/
+theorem nsub_exact_counterexample :
+    ¬ (∀ (ops : List Op) (n : Net), n ∈ (run init ops).nets → ∀ pg,
+        (n.getStat pg).nSub = (run init ops).pages.countP (fun p => p.net = n.id ∧ p.pgno = pg)) := by
+  intro h
+  have w := nsub_wrap_witness
+  cases hnets : (run init (.addNet :: pairOps 256 0)).nets with
+  | nil => rw [hnets] at w; cases w
+  | cons n t =>
+    rw [hnets] at w
+    simp only [List.map_cons, List.cons.injEq, Prod.mk.injEq] at w
+    have hn : n ∈ (run init (.addNet :: pairOps 256 0)).nets := by rw [hnets]; exact List.mem_cons_self
+    have h1 := h _ n hn 0x101
+    omega
+
+/-! ## the abstract map -/
+
+/-- Look-up refines the map: `_vbi_cache_get_page` returns a copy-equal page iff the abstract store has a
+    version matching the key under the mask - the most recently stored or looked-up one (wildcard
+    subpage: `VBI_ANY_SUBNO` or a partial mask) - and that version becomes the most recent. -/
+theorem refines_map_get (ops : List Op) (nid pgno subno mask : Nat) (hv : validPgno pgno = true) :
+    let s := run init ops
+    ((s.getPage nid pgno subno mask).2.map Page.entry = alookup s.abs nid pgno subno (if subno = anySubno then 0 else mask))
+    ∧ (s.getPage nid pgno subno mask).1.abs = atouch s.abs nid pgno subno (if subno = anySubno then 0 else mask) :=
+  getPage_abs (inv_iff_good.1 (inv_reachable ops)).1 nid pgno subno mask hv
+
+/-- Store refines the map (memory not short): `_vbi_cache_put_page` hands out a page copy-equal to its
+    argument (with the subpage number of the key rule), that page is the most recent version, and exactly
+    the version found under the key of `putKey` is replaced. -/
+theorem refines_map_put (ops : List Op) (nid : Nat) (cn : Net) (a : PutArg)
+    (hf : (run init ops).findNet nid = some cn)
+    (hlow : a.pgno &&& 0xFF ≠ 0xFF) (hrange : 0x100 ≤ a.pgno ∧ a.pgno ≤ 0x8FF)
+    (hroom : (run init ops).memUsed + pageSize a.func a.x26 a.x28 ≤ (run init ops).memLimit)
+    (s' : State) (r : Option Page) (hres : (run init ops).putPage nid a = .ok (s', r)) :
+    s'.abs = aput (run init ops).abs (putEntry nid a (putKey (cn.getStat a.pgno).ptype a.pgno a.subno).1)
+        (putKey (cn.getStat a.pgno).ptype a.pgno a.subno).2
+    ∧ r.map Page.entry = some (putEntry nid a (putKey (cn.getStat a.pgno).ptype a.pgno a.subno).1) :=
+  putPage_abs (inv_iff_good.1 (inv_reachable ops)).1 hf a hlow hrange hroom hres
+
+/-- `vbi_is_cached` answers 1 iff the abstract store has the page (exact subpage, or any for `VBI_ANY_SUBNO`). -/
+theorem is_cached_agrees (ops : List Op) (nid pgno subno : Nat) (cn : Net) (hf : (run init ops).findNet nid = some cn)
+    (hv : validPgno pgno = true) :
+    (step (run init ops) (.isCached nid pgno subno)).2 =
+      .num (if (alookup (run init ops).abs nid pgno subno (if subno = anySubno then 0 else 0xFFFFFFFF)).isSome then 1 else 0) := by
+  have := (refines_map_get ops nid pgno subno 0xFFFFFFFF hv).1
+  unfold step; simp only [hf]
+  revert this
+  cases hg : State.getPage (run init ops) nid pgno (↑subno) 0xFFFFFFFF with
+  | mk s' o =>
+    cases o with
+    | none => intro h; simp only [Option.map_none] at h; rw [← h]; rfl
+    | some p => intro h; simp only [Option.map_some] at h; rw [← h]; rfl
+
+/-- The memory limit of libzvbi 0.2 (1 GiB, not changeable) is out of reach while the cache holds at most
+    0x800 x 80 pages - the bound cache.c asserts under CACHE_CONSISTENCY: a put always finds room, so the
+    death row stays as the look-up left it and nothing is evicted. -/
+theorem limit_unreachable_0_2 (ops : List Op) (hl : (run init ops).memLimit = memoryLimit0)
+    (hn : (run init ops).pages.length ≤ 0x800 * 80) (func : Int) (x26 x28 : Nat) :
+    (run init ops).memUsed + pageSize func x26 x28 ≤ (run init ops).memLimit :=
+  mem_room_0_2 (inv_reachable ops) hl hn func x26 x28
+
+/-- ... but the page-count bound itself does not hold: the key rule admits duplicate keys, one more cached
+    copy per pair of puts (finding F17).  Replayed on the C code by the same corpus file. -/
+theorem unique_key_counterexample :
+    ¬ (∀ (ops : List Op), ∀ p ∈ (run init ops).pages, ∀ q ∈ (run init ops).pages,
+        p.pri ≠ .zombie → q.pri ≠ .zombie → p.net = q.net → p.pgno = q.pgno → p.subno = q.subno → p.id = q.id) := by
+  intro h
+  have w := dup_key_witness
+  cases hp : (run init dupOps).pages with
+  | nil => rw [hp] at w; cases w
+  | cons p t =>
+    cases t with
+    | nil => rw [hp] at w; simp at w
+    | cons q t2 =>
+      rw [hp] at w
+      simp only [List.map_cons, List.cons.injEq, Prod.mk.injEq] at w
+      obtain ⟨⟨a1, a2, a3, a4, a5, _⟩, ⟨b1, b2, b3, b4, b5, _⟩, _⟩ := w
+      have := h dupOps p (by rw [hp]; simp) q (by rw [hp]; simp) (by rw [a5]; simp) (by rw [b5]; simp)
+        (by rw [a2, b2]) (by rw [a3, b3]) (by rw [a4, b4])
+      omega
+
+/-! ## reference safety, channel switch, teardown -/
+
+/-- A page held by a caller stays in the cache, content and reference count unchanged, through every
+    operation that does not itself take or release page references: stores (also when it is replaced: it
+    becomes a zombie), network add / recycle / unref, channel switch, purge, memory-limit change with
+    eviction. -/
+theorem held_page_intact_partial (ops : List Op) (op : Op)
+    (hop : match op with
+      | .get .. | .ref .. | .unref .. | .isCached .. | .foreach .. => False
+      | _ => True)
+    (p : Page) (hp : p ∈ (run init ops).pages) (hr : 0 < p.ref) :
+    ∃ q ∈ (step (run init ops) op).1.pages, q.id = p.id ∧ q.net = p.net ∧ q.pgno = p.pgno ∧ q.subno = p.subno
+      ∧ q.func = p.func ∧ q.x26 = p.x26 ∧ q.x28 = p.x28 ∧ q.tag = p.tag ∧ q.ref = p.ref := by
+  obtain ⟨q, hq, e⟩ := held_step (inv_iff_good.1 (inv_reachable ops)) op hop p hp hr
+  obtain ⟨e1, e2, e3, e4, e5, e6, e7, e8, e9⟩ := e
+  exact ⟨q, hq, e1.symm, e2.symm, e3.symm, e4.symm, e5.symm, e6.symm, e7.symm, e8.symm, e9.symm⟩
+
+/-- After `vbi_chsw_reset` no page is reachable through the decoder's (new) network: it has no page at all,
+    and every look-up in it fails until something is stored. -/
+theorem chsw_unreachable (ops : List Op) (nid : Nat) (cn : Net) (hf : (run init ops).findNet nid = some cn)
+    (nid' : Nat) (hout : (step (run init ops) (.chsw nid)).2 = .net nid') :
+    (∀ q ∈ (step (run init ops) (.chsw nid)).1.pages, q.net ≠ nid')
+    ∧ ∀ pgno subno mask, ((step (run init ops) (.chsw nid)).1.getPage nid' pgno subno mask).2 = none := by
+  have h := chsw_empty (inv_iff_good.1 (inv_reachable ops)) nid cn hf nid' hout
+  exact ⟨h, fun pgno subno mask => getPage_none_of_empty h pgno subno mask⟩
+
+/-- Teardown: when the client has released every page and network reference, `vbi_cache_delete`'s purge
+    leaves no page, no network and empty lists - nothing is leaked. -/
+theorem teardown_frees_all (ops : List Op) (hp : ∀ p ∈ (run init ops).pages, p.ref = 0)
+    (hn : ∀ n ∈ (run init ops).nets, n.ref = 0) :
+    (step (run init ops) .purge).1.pages = [] ∧ (step (run init ops) .purge).1.nets = []
+    ∧ (step (run init ops) .purge).1.priority = [] ∧ (step (run init ops) .purge).1.referenced = [] :=
+  purge_frees_all (inv_iff_good.1 (inv_reachable ops)) hp hn
+
+example : (step (run init [.addNet, .put 0 ⟨0x100, 0, 0, 0, 0, 7⟩, .unref 0, .netUnref 0]) .purge).1.pages = [] := by
+  decide
+
+/-! ## statements kept visible, not proved -/
+
+/-- FULL statement of `held_page_intact`: through ANY operation other than the release of its last
+    reference a held page keeps its content and its reference count changes only by the references the
+    operation takes or releases on it.  Proved above for all operations except get / ref / unref /
+    is-cached / page walk (for those the invariant `inv_step` still shows the page is not freed while
+    `ref > 0`: it stays on the `referenced` list). -/
+def held_page_intact_full : Prop :=
+  ∀ (ops : List Op) (op : Op) (p : Page), p ∈ (run init ops).pages → 0 < p.ref →
+    (op = .unref p.id ∧ p.ref = 1) ∨
+    ∃ q ∈ (step (run init ops) op).1.pages, q.id = p.id ∧ q.net = p.net ∧ q.pgno = p.pgno ∧ q.subno = p.subno
+      ∧ q.func = p.func ∧ q.x26 = p.x26 ∧ q.x28 = p.x28 ∧ q.tag = p.tag ∧ p.ref ≤ q.ref + (if op = .unref p.id then 1 else 0)
+
+/-- FULL statement of `hi_subno_agrees`: `vbi_cache_hi_subno` is the highest subpage number stored for the
+    page since the statistics were initialised. -/
+def hi_subno_agrees_full : Prop :=
+  ∀ (ops : List Op) (n : Net) (p : Page), n ∈ (run init ops).nets → p ∈ (run init ops).pages → p.net = n.id →
+    p.subno ≤ (n.getStat p.pgno).subMax
 
 end Zvbi.Props.C10
